@@ -233,7 +233,7 @@ func zzRun(name string, tokens []string, max int, pred func(string) string) {
 		if r.tier == "thorough" {
 			to = 1500 * time.Second
 		}
-		cmd := exec.Command("go", "test", "-tags", "verif", "-overlay", ovFile, "-vet=off", "-count=1", "-timeout", fmt.Sprintf("%ds", int(to.Seconds())), "-run", "^TestZZBounded$", ".")
+		cmd := exec.Command("go", "test", "-tags", "verif", "-overlay", ovFile, "-vet=off", "-count=1", "-timeout", fmt.Sprintf("%ds", int(to.Seconds())), "-v", "-run", "^TestZZBounded$", ".")
 		cmd.Dir = dir
 		cmd.Env = append(os.Environ(), "GOFLAGS=-mod=mod", "GOPROXY=off", "GOSUMDB=off", "GOTOOLCHAIN=local")
 		out, err := cmd.CombinedOutput()
